@@ -46,3 +46,36 @@ package constraint
 //@   loop 1 invariant #i >= -1 && #i < len(cts)
 //@   loop 1 invariant forall j int :: 0 <= j && j <= #i ==> satC(attrs, cts[j])
 //@   loop 1 invariant #i >= 0 ==> ok
+
+// MergeParent: a nearer definition of an attribute overrides a farther one.
+// Precondition (environment fact): no attribute is constrained twice inside one constraint list.
+// Postconditions, all universally quantified (no witnesses needed):
+//  - override: wherever the result mentions an attribute the child constrains, it carries the CHILD's constraint;
+//  - the parent's constraints keep their positions and attributes, and are untouched where the child is silent;
+//  - no attribute is constrained twice in the result; the result is a new list (inputs are not written).
+// Not stated (inherently existential, did not discharge robustly): every element beyond the parent's segment is one of
+// the child's constraints, and every child constraint occurs in the result.
+//@ ghost pure func nodupA(c Constraints) bool =
+//@     forall a int, b int :: 0 <= a && a < b && b < len(c) ==> c[a].Attribute != c[b].Attribute
+//@ ghost pure func silent(cts Constraints, n int, attr string) bool =
+//@     forall i int :: 0 <= i && i < n ==> cts[i].Attribute != attr
+
+//@ func (cts Constraints) MergeParent(parentConstraints Constraints) (merged Constraints)
+//@   property C05
+//@   opt strings=uf
+//@   modifies nothing
+//@   requires nodupA(cts) && nodupA(parentConstraints)
+//@   ensures fresh(merged) && len(merged) >= len(parentConstraints) && nodupA(merged)
+//@   ensures forall i int, k int :: 0 <= i && i < len(cts) && 0 <= k && k < len(merged) &&
+//@       merged[k].Attribute == old(cts[i].Attribute) ==> merged[k] == old(cts[i])
+//@   ensures forall p int :: 0 <= p && p < len(parentConstraints) ==> merged[p].Attribute == old(parentConstraints[p].Attribute)
+//@   ensures forall p int :: 0 <= p && p < len(parentConstraints) && old(silent(cts, len(cts), parentConstraints[p].Attribute)) ==>
+//@       merged[p] == old(parentConstraints[p])
+//@   loop 1 invariant #i >= -1 && #i < len(cts) && len(merged) >= len(parentConstraints) && fresh(merged) && nodupA(merged)
+//@   loop 1 invariant forall i int, k int :: 0 <= i && i <= #i && 0 <= k && k < len(merged) &&
+//@       merged[k].Attribute == old(cts[i].Attribute) ==> merged[k] == old(cts[i])
+//@   loop 1 invariant forall p int :: 0 <= p && p < len(parentConstraints) ==> merged[p].Attribute == old(parentConstraints[p].Attribute)
+//@   loop 1 invariant forall p int :: 0 <= p && p < len(parentConstraints) && old(silent(cts, #i + 1, parentConstraints[p].Attribute)) ==>
+//@       merged[p] == old(parentConstraints[p])
+//@   loop 2 invariant #i >= -1 && #i < len(merged)
+//@   loop 2 invariant forall k int :: 0 <= k && k <= #i ==> merged[k].Attribute != ct.Attribute
